@@ -1,0 +1,26 @@
+//go:build verif
+
+package cfgutil
+
+// Contracts for the deductive verification of this package (see /verif/DESIGN.md).
+// This file is comment-only: it is compiled only with the build tag "verif" and adds no code.
+// Syntax: Gobra-style //@ lines, keyed by function and by loop ordinal (never by line number).
+
+//@ func NewCollector
+//@ props C19
+//@ ensures [fresh] fresh(result)
+//@ ensures [err] result.err == nil
+//@ ensures [cfg] cfg != nil ==> result.config == cfg
+//@ ensures [newcfg] cfg == nil ==> result.config != nil
+//@ ensures [opts] result.opts == opts
+
+//@ func (*Collector).Add
+//@ props C19
+//@ requires c != nil && c.config != nil
+//@ requires !inTree(c.config, c)
+//@ modifies c.err, tree(c.config)
+//@ ensures [sticky] old(c.err) != nil ==> result == old(c.err) && c.err == old(c.err)
+//@ ensures [record] old(c.err) == nil && err != nil ==> result == err && c.err == err
+//@ ensures [merged] old(c.err) == nil && err == nil && cfg != nil ==> c.err == result && mergedWith(c.config, toAny(cfg), old(c.opts))
+//@ ensures [noop] old(c.err) == nil && err == nil && cfg == nil ==> result == nil && c.err == nil
+//@ ensures [config] c.config == old(c.config) && c.opts == old(c.opts)
